@@ -33,6 +33,15 @@ pub(crate) fn at(point: &'static str, a: u64) {
     }
 }
 
+static NEXT_ID: std::sync::atomic::AtomicU64 =
+    std::sync::atomic::AtomicU64::new(1);
+
+/// A process-unique number, used to pair the `worker.spawn` notification of
+/// the spawning thread with the `worker.start` notification of the new thread.
+pub(crate) fn next_id() -> u64 {
+    NEXT_ID.fetch_add(1, std::sync::atomic::Ordering::Relaxed)
+}
+
 /// Calls `at(point_on_drop, a)` when dropped, also when unwinding.
 pub(crate) struct ExitGuard {
     pub(crate) point: &'static str,
